@@ -47,7 +47,7 @@ func receivedCloserNotDropped(c *cx, id string, inScope func(f *eng.Fn) bool) in
 				return true
 			}
 			v := g.LocalVar(as.Lhs[0])
-			if v == nil || !hasCloseMethod(v.Type()) {
+			if v == nil || !(hasCloseMethod(v.Type()) || hasChanField(v.Type())) {
 				return true
 			}
 			n++
@@ -67,9 +67,14 @@ func receivedCloserNotDropped(c *cx, id string, inScope func(f *eng.Fn) bool) in
 				c.r.Check(id, f, "received "+v.Name(), "site is placed in the control-flow graph", as.Pos(), false, "receive not found in the graph")
 				return true
 			}
+			// what counts as looking after the value: handing the whole value
+			// on (argument, return operand, send, store), closing it, or - for
+			// a hand-off record - a channel operation on one of its channels.
+			// Reading a field to decide something is not.
 			uses := func(x ast.Node) bool {
 				found := false
-				ast.Inspect(x, func(m ast.Node) bool {
+				var visit func(m ast.Node) bool
+				visit = func(m ast.Node) bool {
 					if found {
 						return false
 					}
@@ -78,15 +83,25 @@ func receivedCloserNotDropped(c *cx, id string, inScope func(f *eng.Fn) bool) in
 						if (y.Op == token.EQL || y.Op == token.NEQ) && (isNilIdent(f, y.X) || isNilIdent(f, y.Y)) {
 							return false // a nil test does not look after the value
 						}
-					case *ast.FuncLit:
-						// a closure that mentions the value (deferred clean-up)
+					case *ast.SelectorExpr:
+						if idn, ok := ast.Unparen(y.X).(*ast.Ident); ok && f.Info().Uses[idn] == types.Object(v) {
+							if y.Sel.Name == "Close" {
+								found = true
+							} else if t := f.Info().TypeOf(y); t != nil {
+								if _, isChan := t.Underlying().(*types.Chan); isChan {
+									found = true
+								}
+							}
+							return false
+						}
 					case *ast.Ident:
 						if f.Info().Uses[y] == types.Object(v) {
 							found = true
 						}
 					}
 					return true
-				})
+				}
+				ast.Inspect(x, visit)
 				return found
 			}
 			stop := func(p eng.Point, x ast.Node) bool {
@@ -142,7 +157,7 @@ func receivedCloserNotDropped(c *cx, id string, inScope func(f *eng.Fn) bool) in
 			if bad != token.NoPos {
 				why = "the return at " + c.p.Fset.Position(bad).String() + " is reached from the receive without the value being returned, handed on or closed: whoever sent it waits for its Close for ever"
 			}
-			c.r.Check(id, f, "value received into "+v.Name(), "O: a closer taken out of a channel is returned, handed on or closed on every path to a return", as.Pos(), bad == token.NoPos, why)
+			c.r.Check(id, f, "value received into "+v.Name(), "O: a closer or hand-off record taken out of a channel is returned, handed on, closed or signalled on every path to a return", as.Pos(), bad == token.NoPos, why)
 			return true
 		})
 	}
@@ -162,6 +177,24 @@ func hasCloseMethod(t types.Type) bool {
 			if ms.At(i).Obj().Name() == "Close" {
 				return true
 			}
+		}
+	}
+	return false
+}
+
+// hasChanField: a struct with a channel-typed field (a hand-off record: the
+// other side waits on one of its channels).
+func hasChanField(t types.Type) bool {
+	if p, ok := t.Underlying().(*types.Pointer); ok {
+		t = p.Elem()
+	}
+	st, ok := t.Underlying().(*types.Struct)
+	if !ok {
+		return false
+	}
+	for i := 0; i < st.NumFields(); i++ {
+		if _, isChan := st.Field(i).Type().Underlying().(*types.Chan); isChan {
+			return true
 		}
 	}
 	return false
